@@ -38,5 +38,11 @@ for c in CHECKS:
         "level_note": c["note"],
         "technique": c["technique"],
     })
+claimed = set(c["id"] for c in CHECKS)
+for i in range(1, 21):
+    pid = "C%02d" % i
+    if pid not in claimed and not any(n["property_id"] == pid for n in m["not_applicable"]):
+        m["not_applicable"].append({"property_id": pid, "reason": "not claimed in this commit: its monitor is not built yet "
+                                    "(the technique applies; see DESIGN.md section 3)"})
 json.dump(m, open(os.path.join(HERE, "MANIFEST.json"), "w"), indent=1)
 print("wrote MANIFEST.json with", len(m["checks"]), "checks")
